@@ -18,10 +18,10 @@ ERRNOS = ["EACCES", "EPERM", "EROFS", "ENOSPC", "EDQUOT", "EIO", "ENAMETOOLONG",
 MODELLED_KINDS = ("mkdir", "createExcl", "write", "close", "unlink")
 LEVEL_NOTE = ("theorems quantify over every fault oracle on the calls of the resolved-layer core (Model/Put.lean, "
               "Model/PyLib.lean); faults on read-only calls (stat/lstat/access/readlink/listdir) and faults that send "
-              "shutil.move into its copy fallback are checked on the implementation against the Spec only")
+              "shutil.move into its copy fallback are checked on the implementation against the Spec only; C17Single: put_single_fault_conserves - under ANY single fault (every errno, the rename included, whose copy fallback then runs fault-free) the entry ends trashed node for node or everything is untouched and the failure is a persist error; termination under every oracle (run_bounded_uniformly); the two-fault findings as kernel-checked witnesses")
 RULE = ("for each seeded world (one argument; home, .Trash/uid, .Trash-uid after an insecure .Trash, --trash-dir; "
         "file/tree/symlink/empty; with and without a name collision): every (kind, occurrence) of a mutating call of the "
-        "fault-free run x 14 errnos, persistent faults per (kind, errno), stat-class faults at sampled positions; thorough "
+        "fault-free run x 14 errnos, worlds cycling through every kind of first candidate, a fixed share with -f / -v, persistent faults per (kind, errno), stat-class faults at sampled positions; thorough "
         "adds all pairs; a case is distinct by (world, fault plan) and non-trivial when the fault was actually delivered")
 
 
@@ -59,9 +59,10 @@ def plans_for(trace, reads, tier, rng, read_log=()):
     return plans
 
 
-def fault_sig(plan):
+def fault_sig(plan, world=None):
     fs = plan.get("faults", [])
-    return {"fault_kinds": sorted({f["op"] for f in fs}), "n_faults": len(fs),
+    return {"force": bool(world) and world.get("opts", {}).get("mode") == "force",
+            "fault_kinds": sorted({f["op"] for f in fs}), "n_faults": len(fs),
             "rename_faulted": any(f["op"] == "rename" for f in fs), "unlink_faulted": any(f["op"] == "unlink" for f in fs),
             "read_fault": bool(plan.get("read_faults")), "persistent": any(f.get("persistent") for f in fs)}
 
@@ -84,15 +85,15 @@ def eval_task(task):
            "mismatch": r["mismatch"] if modelled else [], "bad": []}
     if r["obs_exit"] == "budget":
         out["bad"].append({"oracle": "terminates", "verdict": "did-not-terminate-within-budget",
-                           "sig": dict(fault_sig(plan), oracle="terminates")})
+                           "sig": dict(fault_sig(plan, world), oracle="terminates")})
     for name, v in r["oracle"].items():
         if not v["ok"]:
             out["bad"].append({"oracle": name, "verdict": v["verdict"],
-                               "sig": dict(fault_sig(plan), oracle=name, verdict=v["verdict"].split(" ")[0])})
+                               "sig": dict(fault_sig(plan, world), oracle=name, verdict=v["verdict"].split(" ")[0])})
     if r["exc"] and not r["mismatch"]:
         out["tags"].append("uncaught:" + str(r["exc"]))
         out["bad"].append({"oracle": "no-traceback", "verdict": "uncaught " + str(r["exc"]),
-                           "sig": dict(fault_sig(plan), oracle="no-traceback", exc=r["exc"])})
+                           "sig": dict(fault_sig(plan, world), oracle="no-traceback", exc=r["exc"])})
     if out["mismatch"] or out["bad"]:
         out["world"] = jsonable(world)
         out["plan"] = plan
@@ -101,7 +102,10 @@ def eval_task(task):
 
 
 def base_task(task):
-    world = gen_fault_world(task_rng("C17", task["seed"], task["i"]))
+    # every kind of first candidate and, with each of them, -f (which silences nonexistent arguments only) within any 15 worlds
+    i = task["i"] + task["seed"]
+    world = gen_fault_world(task_rng("C17", task["seed"], task["i"]),
+                            where=["home", "top", "alt", "alt-after-insecure-top", "custom"][i % 5], force=(i % 3 == 1))
     obs = run_world(world, {"log_reads": True})
     # second level: the calls issued once the rename was refused (shutil.move's copy + delete fallback)
     obs2 = run_world(world, {"faults": [{"op": "rename", "nth": 0, "errno": "EXDEV"}]})
